@@ -4,7 +4,8 @@ Workload: operation sequences over
   E1 enqueue one | E3 enqueue three | F finish | FX finish(exc) | C cancel queue |
   R start receive | X cancel pending receive | S let the loop run one step
 executed against a fresh AsyncQueue (optionally created with initial elements) by one driver
-coroutine; every element is a unique integer.
+coroutine; every element is unique: an integer, or - in a part of the sequences - an exception *instance*
+used as an ordinary element (result-or-error queues), which must be delivered like any other element.
 
 Two modes, two kinds of oracle:
   settled  after every operation the loop runs until the consumer is stable, so a 20-line
@@ -57,11 +58,24 @@ class Boom(Exception):
     pass
 
 
+class ElemErr(Exception):
+    """an exception instance used as an ordinary queue *element* (result-or-error queues): it must be delivered, never raised"""
+
+    def __init__(self, n: int) -> None:
+        super().__init__(n)
+        self.n = n
+
+    def __repr__(self) -> str:
+        return f"ElemErr({self.n})"
+
+
 class _Run:
     """executes one sequence against the real queue and records the boundary history"""
 
-    def __init__(self, queue_cls: Any, initial: int, settled: bool) -> None:
-        self.ids = itertools.count(1)
+    def __init__(self, queue_cls: Any, initial: int, settled: bool, elems: str = "int") -> None:
+        counter = itertools.count(1)
+        # elements are unique: plain ints, or exception instances (every third one in "mixed")
+        self.ids = (n if elems == "int" or (elems == "mixed" and n % 3) else ElemErr(n) for n in counter)
         self.enqueued: list[int] = [next(self.ids) for _ in range(initial)]
         self.q = queue_cls(*self.enqueued)
         self.settled = settled
@@ -286,8 +300,8 @@ def _model_mismatch(run: _Run) -> str | None:
     return None
 
 
-async def run_sequence(queue_cls: Any, loop: asyncio.AbstractEventLoop, mode: str, initial: int, seq: tuple[str, ...]) -> _Run | None:
-    run = _Run(queue_cls, initial, settled=(mode == "settled"))
+async def run_sequence(queue_cls: Any, loop: asyncio.AbstractEventLoop, mode: str, initial: int, seq: tuple[str, ...], elems: str = "int") -> _Run | None:
+    run = _Run(queue_cls, initial, settled=(mode == "settled"), elems=elems)
     for op in seq:
         run._harvest()
         if not run.applicable(op):
@@ -303,8 +317,10 @@ async def run_sequence(queue_cls: Any, loop: asyncio.AbstractEventLoop, mode: st
     return run
 
 
-def judge(R: Recorder, run: _Run, mode: str, initial: int, seq: tuple[str, ...]) -> None:
-    case = {"mode": mode, "initial": initial, "seq": list(seq)}
+def judge(R: Recorder, run: _Run, mode: str, initial: int, seq: tuple[str, ...], elems: str = "int") -> None:
+    case = {"mode": mode, "initial": initial, "seq": list(seq), "elems": elems}
+    if elems != "int":
+        R.count("sequences_with_exception_elements")
     R.case(case, nontrivial=run.handoff_while_pending)
     if run.handoff_while_pending:
         R.count("handoff_while_pending")
@@ -312,7 +328,7 @@ def judge(R: Recorder, run: _Run, mode: str, initial: int, seq: tuple[str, ...])
         R.count("cancel_after_handoff")
     R.count("receives_completed", len(run.recv_log))
     R.count("elements_enqueued", len(run.enqueued))
-    R.distinct("model_states", (tuple(run.m_buf)[:4], run.reason_kind, run.m_pending, len(run.received)))
+    R.distinct("model_states", (tuple(repr(x) for x in tuple(run.m_buf)[:4]), run.reason_kind, run.m_pending, len(run.received)))
     byname: dict[str, list[tuple[str, str]]] = {}
     for mon, kind, detail in run.problems:
         byname.setdefault(mon, []).append((kind, detail))
@@ -330,7 +346,7 @@ def judge(R: Recorder, run: _Run, mode: str, initial: int, seq: tuple[str, ...])
         else:
             R.monitor("model", True)
     if R.want_sample(mode) and run.handoff_while_pending and len(seq) >= 4:
-        R.sample({**case, "enqueued": run.enqueued, "received": run.received, "receive_outcomes": [(k, repr(v)) for k, v in run.recv_log]}, kind=mode)
+        R.sample({**case, "enqueued": [repr(x) for x in run.enqueued], "received": [repr(x) for x in run.received], "receive_outcomes": [(k, repr(v)) for k, v in run.recv_log]}, kind=mode)
 
 
 def _cases(tier: str, seed: int, shard: int, nshards: int):  # noqa: ANN202
@@ -342,9 +358,11 @@ def _cases(tier: str, seed: int, shard: int, nshards: int):  # noqa: ANN202
             if n % nshards != shard:
                 continue
             for mode in ("settled", "racy"):
-                yield mode, 0, seq
+                yield mode, 0, seq, "int"
             if length <= maxlen - 1:
-                yield "racy", 2, seq
+                yield "racy", 2, seq, "int"
+                yield "racy", 0, seq, "exc"
+                yield "settled", 1, seq, "mixed"
     rng = random.Random(f"C17/{seed}/{shard}")
     weights = {"E1": 4, "E3": 2, "F": 1, "FX": 1, "C": 1, "R": 5, "X": 3, "S": 4}
     ops, w = list(weights), list(weights.values())
@@ -352,7 +370,7 @@ def _cases(tier: str, seed: int, shard: int, nshards: int):  # noqa: ANN202
         length = rng.randint(6, 40)
         seq = tuple(rng.choices(ops, w)[0] for _ in range(length))
         # keep finishing ops rare in long sequences so that they stay interesting
-        yield rng.choice(("settled", "racy")), rng.choice((0, 0, 1, 3)), seq
+        yield rng.choice(("settled", "racy")), rng.choice((0, 0, 1, 3)), seq, rng.choice(("int", "int", "exc", "mixed"))
 
 
 def run(R: Recorder, tier: str, seed: int, shard: int, nshards: int) -> None:
@@ -361,25 +379,25 @@ def run(R: Recorder, tier: str, seed: int, shard: int, nshards: int) -> None:
     R.flags["exhaustive_core"] = f"all op sequences of length <= {EXH_LEN[tier]} over {len(OPS)} ops, both modes"
 
     async def main(loop: asyncio.AbstractEventLoop) -> None:
-        for mode, initial, seq in _cases(tier, seed, shard, nshards):
+        for mode, initial, seq, elems in _cases(tier, seed, shard, nshards):
             # random sequences: drop inapplicable ops instead of skipping the whole sequence
-            r = await run_sequence(AsyncQueue, loop, mode, initial, seq)
+            r = await run_sequence(AsyncQueue, loop, mode, initial, seq, elems)
             if r is None:
                 if len(seq) > EXH_LEN[tier]:
-                    r = await run_filtered(AsyncQueue, loop, mode, initial, seq)
+                    r = await run_filtered(AsyncQueue, loop, mode, initial, seq, elems)
                     seq = tuple(r.events)
                 else:
                     R.count("skipped_inapplicable")
                     continue
-            judge(R, r, mode, initial, seq)
+            judge(R, r, mode, initial, seq, elems)
 
     status, value, loop = run_virtual(main, max_iterations=10**9)
     if status != "ok":
         R.inconclusive.append(f"driver ended {status}: {value!r}")
 
 
-async def run_filtered(queue_cls: Any, loop: asyncio.AbstractEventLoop, mode: str, initial: int, seq: tuple[str, ...]) -> _Run:
-    run = _Run(queue_cls, initial, settled=(mode == "settled"))
+async def run_filtered(queue_cls: Any, loop: asyncio.AbstractEventLoop, mode: str, initial: int, seq: tuple[str, ...], elems: str = "int") -> _Run:
+    run = _Run(queue_cls, initial, settled=(mode == "settled"), elems=elems)
     for op in seq:
         run._harvest()
         if run.applicable(op):
@@ -396,8 +414,8 @@ def replay(R: Recorder, case: dict[str, Any]) -> None:
     from haiway.utils.queue import AsyncQueue
 
     async def main(loop: asyncio.AbstractEventLoop) -> None:
-        r = await run_filtered(AsyncQueue, loop, case["mode"], case["initial"], tuple(case["seq"]))
-        judge(R, r, case["mode"], case["initial"], tuple(r.events))
+        r = await run_filtered(AsyncQueue, loop, case["mode"], case["initial"], tuple(case["seq"]), case.get("elems", "int"))
+        judge(R, r, case["mode"], case["initial"], tuple(r.events), case.get("elems", "int"))
         print("events:", r.events)
         print("enqueued:", r.enqueued, "received:", r.received)
         print("receive outcomes:", [(k, repr(v)) for k, v in r.recv_log])
